@@ -2,6 +2,8 @@
 import json
 from fractions import Fraction
 
+import warnings
+
 import numpy as np
 
 from harness.common import q2s, s2q, run_driver, lean_obligations
@@ -79,6 +81,11 @@ def run(ctx):
     from numdifftools import fornberg
     lean_obligations(ctx, MODULE, THEOREMS)
     rng = ctx.rng
+    # the very first call of this process works in single precision (whatever is allocated or remembered then must not decide the
+    # precision of the double-precision calls that follow)
+    with warnings.catch_warnings():
+        warnings.simplefilter('ignore')
+        fornberg.fd_derivative(np.linspace(0, 1, 12, dtype=np.float32) ** 2, np.linspace(0, 1, 12, dtype=np.float32), 1, 1)
 
     # ---------------- engine `fdder.stores`: windows and expansion nodes, exact -------------------------------
     eng = ctx.engine('fdder.stores')
@@ -192,6 +199,17 @@ def run(ctx):
         xa = np.array(x)
         ctx.tried((n, m, tuple(x[:4]), len(x), tuple(coef)) if len(coef) - 1 >= n else None)
         try:
+            if rng.random() < 0.3:
+                # an earlier call in the same process worked on a single-precision (or slightly different) grid of the same length
+                with warnings.catch_warnings():
+                    warnings.simplefilter('ignore')
+                    try:
+                        if rng.random() < 0.6:
+                            fornberg.fd_derivative(fx.astype(np.float32), xa.astype(np.float32), n, m)
+                        else:
+                            fornberg.fd_derivative(fx, xa * (1 + 3e-8), n, m)
+                    except (ValueError, ZeroDivisionError, FloatingPointError):
+                        pass          # a float32 grid may have coinciding nodes: not the call under test
             du = fornberg.fd_derivative(fx, xa, n, m)
             ctx.keep('fd_derivative', du, x=xa.tolist(), n=n, m=m)
         except Exception as ex:
